@@ -801,47 +801,50 @@ impl<K: Ord, V: Val<A>, A: Ord + Hash + Clone> Map<K, V, A> {
     }
 //@end
 
-    // OUT OF REACH (assumed, bounded stand-in `map_iters`): keys / values / iter return opaque Map adapters
-    // over `entries` (see VClock::iter).  Per-item contract: add context = map clock, remove context = entry clock.
-    #[verifier::external_body]
+    // keys / values / iter return `entries.iter().map(move |..| ReadCtx{..})`: verified against the N2 shim for the Map adapter (see
+    // VClock::iter); the bounded stand-in `map_iters` still runs.  Per item: add context = map clock, remove context = entry clock.
 //@extract fn src/map.rs "Map" keys
     pub fn keys(&self) -> /*@ (r: @*/ impl Iterator<Item = ReadCtx<&K, A>> /*@ ) @*/
     //@ ensures r.obeys_prophetic_iter_laws(), r.decrease() is Some,
-    //@     forall|i: int| 0 <= i < r.remaining().len() ==> { let x = #[trigger] r.remaining()[i]; self.has(*x.val) && x.add_clock@ == self.cl() && x.rm_clock@ == self.ec(*x.val) },
+    //@     (actor_ok::<K>() && actor_ok::<A>() && clone_ok::<A>()) ==> forall|i: int| 0 <= i < r.remaining().len() ==> { let x = #[trigger] r.remaining()[i]; self.has(*x.val) && x.add_clock@ == self.cl() && x.rm_clock@ == self.ec(*x.val) },
+    //@     (actor_ok::<K>() && actor_ok::<A>() && clone_ok::<A>()) ==> forall|k: K| self.has(k) ==> exists|i: int| 0 <= i < r.remaining().len() && *(#[trigger] r.remaining()[i]).val == k,
     {
-        self.entries.iter().map(move |(k, v)| ReadCtx {
+        //@ let ghost rel = |p: (&K, &Entry<V, A>), x: ReadCtx<&K, A>| x.val == p.0 && ((actor_ok::<K>() && actor_ok::<A>() && clone_ok::<A>()) ==> x.add_clock@ == self.cl() && x.rm_clock@ == p.1.clock@);
+        /*@ let it0 = @*/ self.entries.iter() /*@ ; let ghost es = it0.remaining(); proof { crate::stdx5::axiom_btree_iter_finite(&it0); } let r0 = crate::stdx5::shim_iter_map_rel(it0, Ghost(rel), @*/ /*@<*/ .map( /*@>*/ move /*@<*/ | /*@>*/ /*@<pat*/ (k, v) /*@>*/ /*@<*/ | /*@>*/ /*@ |p: (&K, &Entry<V, A>)| -> (o: ReadCtx<&K, A>) ensures rel(p, o) { let $pat = p; @*/ ReadCtx {
             add_clock: self.clock.clone(),
             rm_clock: v.clock.clone(),
             val: k,
-        })
+        } /*@ } @*/ ) /*@ ; proof { if (actor_ok::<K>() && actor_ok::<A>() && clone_ok::<A>()) { let rs = r0.remaining(); assert forall|i: int| 0 <= i < rs.len() implies ({ let x = #[trigger] rs[i]; self.has(*x.val) && x.add_clock@ == self.cl() && x.rm_clock@ == self.ec(*x.val) }) by { assert(rel(es[i], rs[i])); assert(self.entries@.contains_key(*es[i].0) && self.entries@[*es[i].0] == *es[i].1); } assert forall|k: K| self.has(k) implies exists|i: int| 0 <= i < rs.len() && *(#[trigger] rs[i]).val == k by { assert(es.contains((&k, &self.entries@[k]))); let i = choose|i: int| 0 <= i < es.len() && es[i] == (&k, &self.entries@[k]); assert(rel(es[i], rs[i])); } } } r0 @*/
     }
 //@end
 
-    #[verifier::external_body]
 //@extract fn src/map.rs "Map" values
     pub fn values(&self) -> /*@ (r: @*/ impl Iterator<Item = ReadCtx<&V, A>> /*@ ) @*/
     //@ ensures r.obeys_prophetic_iter_laws(), r.decrease() is Some,
-    //@     forall|i: int| 0 <= i < r.remaining().len() ==> { let x = #[trigger] r.remaining()[i]; x.add_clock@ == self.cl() && exists|k: K| self.has(k) && #[trigger] self.val(k) == *x.val && x.rm_clock@ == self.ec(k) },
+    //@     (actor_ok::<K>() && actor_ok::<A>() && clone_ok::<A>()) ==> forall|i: int| 0 <= i < r.remaining().len() ==> { let x = #[trigger] r.remaining()[i]; x.add_clock@ == self.cl() && exists|k: K| self.has(k) && #[trigger] self.val(k) == *x.val && x.rm_clock@ == self.ec(k) },
+    //@     (actor_ok::<K>() && actor_ok::<A>() && clone_ok::<A>()) ==> r.remaining().len() == self.keys_dom().len(),
     {
-        self.entries.values().map(move |v| ReadCtx {
+        //@ let ghost rel = |p: &Entry<V, A>, x: ReadCtx<&V, A>| *x.val == p.val && ((actor_ok::<K>() && actor_ok::<A>() && clone_ok::<A>()) ==> x.add_clock@ == self.cl() && x.rm_clock@ == p.clock@);
+        /*@ let it0 = @*/ self.entries.values() /*@ ; let ghost es = it0.remaining(); proof { crate::stdx5::axiom_btree_values_finite(&it0); } let r0 = crate::stdx5::shim_iter_map_rel(it0, Ghost(rel), @*/ /*@<*/ .map( /*@>*/ move |v /*@ : &Entry<V, A> @*/ | /*@ -> (o: ReadCtx<&V, A>) ensures rel(v, o) { @*/ ReadCtx {
             add_clock: self.clock.clone(),
             rm_clock: v.clock.clone(),
             val: &v.val,
-        })
+        } /*@ } @*/ ) /*@ ; proof { if (actor_ok::<K>() && actor_ok::<A>() && clone_ok::<A>()) { let rs = r0.remaining(); let m = self.entries@; let ks = choose|ks: Seq<K>| vstd::std_specs::btree::increasing_seq(ks) && ks.to_set() == m.dom() && ks.no_duplicates() && es == ks.map(|i: int, k: K| &m[k]); ks.unique_seq_to_set(); assert forall|i: int| 0 <= i < rs.len() implies ({ let x = #[trigger] rs[i]; x.add_clock@ == self.cl() && exists|k: K| self.has(k) && #[trigger] self.val(k) == *x.val && x.rm_clock@ == self.ec(k) }) by { assert(rel(es[i], rs[i])); assert(*es[i] == m[ks[i]]); assert(ks.to_set().contains(ks[i])); assert(self.has(ks[i]) && self.val(ks[i]) == *rs[i].val && rs[i].rm_clock@ == self.ec(ks[i])); } } } r0 @*/
     }
 //@end
 
-    #[verifier::external_body]
 //@extract fn src/map.rs "Map" iter
     pub fn iter(&self) -> /*@ (r: @*/ impl Iterator<Item = ReadCtx<(&K, &V), A>> /*@ ) @*/
     //@ ensures r.obeys_prophetic_iter_laws(), r.decrease() is Some,
-    //@     forall|i: int| 0 <= i < r.remaining().len() ==> { let x = #[trigger] r.remaining()[i]; self.has(*x.val.0) && *x.val.1 == self.val(*x.val.0) && x.add_clock@ == self.cl() && x.rm_clock@ == self.ec(*x.val.0) },
+    //@     (actor_ok::<K>() && actor_ok::<A>() && clone_ok::<A>()) ==> forall|i: int| 0 <= i < r.remaining().len() ==> { let x = #[trigger] r.remaining()[i]; self.has(*x.val.0) && *x.val.1 == self.val(*x.val.0) && x.add_clock@ == self.cl() && x.rm_clock@ == self.ec(*x.val.0) },
+    //@     (actor_ok::<K>() && actor_ok::<A>() && clone_ok::<A>()) ==> forall|k: K| self.has(k) ==> exists|i: int| 0 <= i < r.remaining().len() && *(#[trigger] r.remaining()[i]).val.0 == k,
     {
-        self.entries.iter().map(move |(k, v)| ReadCtx {
+        //@ let ghost rel = |p: (&K, &Entry<V, A>), x: ReadCtx<(&K, &V), A>| x.val.0 == p.0 && *x.val.1 == p.1.val && ((actor_ok::<K>() && actor_ok::<A>() && clone_ok::<A>()) ==> x.add_clock@ == self.cl() && x.rm_clock@ == p.1.clock@);
+        /*@ let it0 = @*/ self.entries.iter() /*@ ; let ghost es = it0.remaining(); proof { crate::stdx5::axiom_btree_iter_finite(&it0); } let r0 = crate::stdx5::shim_iter_map_rel(it0, Ghost(rel), @*/ /*@<*/ .map( /*@>*/ move /*@<*/ | /*@>*/ /*@<pat*/ (k, v) /*@>*/ /*@<*/ | /*@>*/ /*@ |p: (&K, &Entry<V, A>)| -> (o: ReadCtx<(&K, &V), A>) ensures rel(p, o) { let $pat = p; @*/ ReadCtx {
             add_clock: self.clock.clone(),
             rm_clock: v.clock.clone(),
             val: (k, &v.val),
-        })
+        } /*@ } @*/ ) /*@ ; proof { if (actor_ok::<K>() && actor_ok::<A>() && clone_ok::<A>()) { let rs = r0.remaining(); assert forall|i: int| 0 <= i < rs.len() implies ({ let x = #[trigger] rs[i]; self.has(*x.val.0) && *x.val.1 == self.val(*x.val.0) && x.add_clock@ == self.cl() && x.rm_clock@ == self.ec(*x.val.0) }) by { assert(rel(es[i], rs[i])); assert(self.entries@.contains_key(*es[i].0) && self.entries@[*es[i].0] == *es[i].1); } assert forall|k: K| self.has(k) implies exists|i: int| 0 <= i < rs.len() && *(#[trigger] rs[i]).val.0 == k by { assert(es.contains((&k, &self.entries@[k]))); let i = choose|i: int| 0 <= i < es.len() && es[i] == (&k, &self.entries@[k]); assert(rel(es[i], rs[i])); } } } r0 @*/
     }
 //@end
 
